@@ -664,4 +664,58 @@ def write (h : WHeader) (charts : List WChart) : Except Err Written :=
           selectable := if h.selectable then yesStr else noStr,
           charts := cs }
 
+/-! ### the text `SMMapSet.write` returns
+
+`"\n".join(_write_metadata() + [line for map in maps for line in map.write()])`.  Python's number rendering
+(`repr` of a float inside an f-string, `str` of an int) is a parameter: the model fixes every other character. -/
+
+structure Shows where
+  rat : Rat → Str
+  int : Int → Str
+
+/-- `f"#TITLE:{self.title};"` (the tags of `stringTags` carry their '#') -/
+def strLine (tv : Str × Str) : Str := tv.1 ++ ':' :: tv.2 ++ [';']
+
+/-- `",\n".join(f"{round(float(beat), 6)}={bpm.bpm}" ...)` -/
+def bpmsParam (sh : Shows) (bpms : List (Rat × Rat)) : Str :=
+  joinWith [',', '\n'] (bpms.map fun p => sh.rat p.1 ++ '=' :: sh.rat p.2)
+
+/-- the 22 lines of `_write_metadata` (no stops in the model: `#STOPS:;`) -/
+def headerLines (sh : Shows) (w : Written) : List Str :=
+  (w.strs.take 13).map strLine ++
+  [ tagOffset ++ ':' :: sh.rat w.offsetSec ++ [';'],
+    tagBpms ++ ':' :: bpmsParam sh w.bpms ++ [';'],
+    tagStops ++ [':', ';'],
+    tagSampleStart ++ ':' :: sh.rat w.sampleStartSec ++ [';'],
+    tagSampleLength ++ ':' :: sh.rat w.sampleLengthSec ++ [';'] ] ++
+  ((w.strs.drop 13).take 1).map strLine ++
+  [ tagSelectable ++ ':' :: w.selectable ++ [';'] ] ++
+  (w.strs.drop 14).map strLine
+
+def indent5 : Str := [' ', ' ', ' ', ' ', ' ']
+
+/-- `"\n,\n".join("\n".join(rows) for each measure)` -/
+def noteData (ms : List (List Str)) : Str := joinWith ['\n', ',', '\n'] (ms.map (joinWith ['\n']))
+
+/-- the banner comment line after its two slashes: six dashes, `{chart_type}[{difficulty_val} {difficulty}]`, six dashes -/
+def bannerText (sh : Shows) (c : WrittenChart) : Str :=
+  ['-', '-', '-', '-', '-', '-'] ++ c.chartType ++ '[' :: sh.int c.difficultyVal ++ ' ' :: c.difficulty ++
+    [']', '-', '-', '-', '-', '-', '-']
+
+/-- the nine strings `SMMap.write` returns -/
+def chartLines (sh : Shows) (c : WrittenChart) : List Str :=
+  [ '/' :: '/' :: bannerText sh c,
+    notesTag,
+    indent5 ++ c.chartType ++ [':'],
+    indent5 ++ c.description ++ [':'],
+    indent5 ++ c.difficulty ++ [':'],
+    indent5 ++ sh.int c.difficultyVal ++ [':'],
+    indent5 ++ joinWith [','] (c.groove.map sh.rat) ++ [':'],
+    noteData c.measures,
+    [';', '\n', '\n'] ]
+
+/-- the text of `SMMapSet.write` -/
+def renderWritten (sh : Shows) (w : Written) : Str :=
+  joinWith ['\n'] (headerLines sh w ++ (w.charts.map (chartLines sh)).flatten)
+
 end Reamber.SM
